@@ -28,7 +28,7 @@ class ConcretePanic(Exception):
 
 class L(list):
     """mutable aggregate / heap cell with a birth stamp (for journalling) and a tag"""
-    __slots__ = ('birth', 'tag')
+    __slots__ = ('birth', 'tag', 'ew')      # ew: bit width of the scalar elements of an array / buffer when known
 
 
 class Ptr:
@@ -521,6 +521,7 @@ class Interp:
         self.alloc += 1
         l.birth = self.alloc
         l.tag = tag
+        l.ew = None
         return l
 
     def write(self, c, k, v, ty=None):
@@ -549,6 +550,7 @@ class Interp:
             self.alloc += 1
             n.birth = self.alloc
             n.tag = v.tag
+            n.ew = getattr(v, 'ew', None)
             return n
         return v
 
@@ -1108,6 +1110,12 @@ class Interp:
                 vals.append(e[2] if e is not None else orig)
             if ty is None and c.tag in ITER_TAGS:
                 ty = USIZE       # positions / counters of library iterator models
+            if ty is None and k is not None and getattr(c, 'ew', None):
+                ty = Ty('int', bits=c.ew, text='u%d' % c.ew)      # element of an array / buffer whose element width is recorded
+            if ty is None and k is not None and type(k) is int and (type(orig) is int or isinstance(orig, Term)):
+                sib = next((x for x in c if isinstance(x, Term)), None)
+                if sib is not None and c.tag in (None, 'buf', 'bytes'):
+                    ty = Ty('int', bits=sib.w, text='u%d' % sib.w)   # homogeneous scalar container: width of a sibling element
             merged = vals[-1]
             for i in range(len(results) - 2, -1, -1):
                 merged = self.merge(results[i][0], vals[i], merged, ty, c if k is None else None)
@@ -1158,7 +1166,16 @@ class Interp:
             if len(a) != len(b):
                 raise Unsupported('merge of aggregates of different length (%s)' % a.tag)
             etys = self.elem_tys(ty, a)
-            return self.mk([self.merge(cond, x, y, et) for x, y, et in zip(a, b, etys)], a.tag)
+            ew = getattr(a, 'ew', None) or getattr(b, 'ew', None)
+            if ew is None and a.tag in (None, 'buf', 'bytes'):
+                sib = next((x for x in list(a) + list(b) if isinstance(x, Term)), None)
+                if sib is not None and all(type(x) is int or isinstance(x, Term) for x in a):
+                    ew = sib.w
+            if ew and all(t is None for t in etys):
+                etys = [Ty('int', bits=ew, text='u%d' % ew)] * len(a)
+            out = self.mk([self.merge(cond, x, y, et) for x, y, et in zip(a, b, etys)], a.tag)
+            out.ew = ew
+            return out
         if ta is Float and tb is Float:
             from . import fpterms
             return Float(fpterms.ite(cond, a.v, b.v))
@@ -1277,6 +1294,8 @@ class Interp:
                 if ty.name == 'Option' and ty.args:
                     return [parse_type('isize'), ty.args[0]][:n] + [None] * max(0, n - 2)
                 return [parse_type('isize')] + [None] * (n - 1)
+            if agg.tag in ('Range', 'RangeIncl', 'RangeTo', 'RangeFrom') and ty.args:
+                return [ty.args[0]] * min(n, 2) + [None] * max(0, n - 2)
             ft = self.prog.struct_tys.get(ty.name)
             if ft is not None and len(ft) == n:
                 out = []
@@ -1315,6 +1334,9 @@ class Interp:
             v = self.mk([self.operand(fr, o) for o in rv[1]]) if rv[1] else UNIT
         elif k == 'array':
             v = self.mk([self.operand(fr, o) for o in rv[1]])
+            dty = self.place_ty(fr, place)
+            if dty is not None and dty.kind == 'array':
+                v.ew = self.scalar_width(dty.args[0])
         elif k == 'repeat':
             x = self.operand(fr, rv[1])
             n = rv[2]
@@ -1324,6 +1346,9 @@ class Interp:
                 v = self.mk([self.copy_val(x) for _ in range(n)])
             else:
                 v = self.mk([x] * n)
+                dty = self.place_ty(fr, place)
+                if dty is not None and dty.kind == 'array':
+                    v.ew = self.scalar_width(dty.args[0])
         elif k == 'struct':
             v = self.mk_struct(fr, rv[1], rv[2])
         elif k == 'ctor':
